@@ -109,6 +109,15 @@ class ILI(_DatabaseEntity):
         self.status = status
         self._definition = definition
 
+    def __eq__(self, other):
+        # proposed ILIs (without an id) are rows of another table
+        if not isinstance(other, ILI):
+            return NotImplemented
+        return self._id == other._id and self.id == other.id
+
+    def __hash__(self):
+        return hash((self.id, self._id))
+
     def __repr__(self) -> str:
         return f'ILI({repr(self.id) if self.id else "*PROPOSED*"})'
 
